@@ -38,7 +38,7 @@ def run(ctx, eng):
             continue
         if cm.process_inputs(p):
             continue        # must precede the state step
-        conds = [T.show(e.cond) for e in p.events if e.kind == 'assume']
+        conds = [cm.show0(e.cond) for e in p.events if e.kind == 'assume']
         if conds and conds[-1] == 'not isinstance(field_value, bytes)':
             checks['bytes'] = True
         s = set(conds)
@@ -116,7 +116,7 @@ def run(ctx, eng):
             n_ev += 1
             if sid is not False:
                 bad.append('connection-level event for a stream frame')
-            conds = {T.show(e.cond) for e in p.events if e.kind == 'assume'}
+            conds = {cm.show0(e.cond) for e in p.events if e.kind == "assume"}
             if 'frame.origin' not in conds:
                 bad.append('event without a non-empty origin')
             if 'self.config.client_side' not in conds:
@@ -162,7 +162,7 @@ def run(ctx, eng):
             if e.kind == 'write' and e.attr == '_authority' and \
                     e.base == ('p', 'self'):
                 n += 1
-                conds = [T.show(x.cond) for x in p.events[:i]
+                conds = [cm.show0(x.cond) for x in p.events[:i]
                          if x.kind == 'assume']
                 if '(self._authority is None)' not in conds:
                     bad.append('authority overwritten by later header '
